@@ -354,21 +354,49 @@ theorem readSlice8_exact {old : Bytes} {len : Int} {r r' : Reader} {bs : Bytes}
     simp only [Prod.mk.injEq, Except.ok.injEq] at h
     exact .inl ⟨h0, h.1.symm, h.2.symm⟩
   · rename_i h0
-    rcases readFull_ok h with ⟨hz, _, _⟩ | ⟨_, e1, e2, e3, e4⟩
-    · omega
-    · exact .inr ⟨by omega, e1, e4, e2, e3⟩
+    cases hc : checkLength len r with
+    | mk res0 r0 =>
+      rw [hc] at h
+      cases res0 with
+      | error e => simp at h
+      | ok u =>
+        obtain ⟨rfl, _, _⟩ := checkLength_ok hc
+        simp only at h
+        rcases readFull_ok h with ⟨hz, _, _⟩ | ⟨_, e1, e2, e3, e4⟩
+        · omega
+        · exact .inr ⟨by omega, e1, e4, e2, e3⟩
 
 theorem readBytes_exact {len : Int} {r r' : Reader} {bs : Bytes}
     (h : readBytes len r = (.ok bs, r')) :
     0 ≤ len ∧ bs.length = len.toNat ∧ r'.data = r.data ∧ r'.pos = r.pos + len.toNat ∧
     (0 < len → r'.pos ≤ r.data.size ∧ bs = takeFrom r.data r.pos len.toNat) := by
   unfold readBytes at h
-  split at h
-  · simp at h
-  · rename_i h0
-    rcases readFull_ok h with ⟨hz, e1, e2⟩ | ⟨_, e1, e2, e3, e4⟩
-    · subst e1 e2; exact ⟨by omega, by simp [hz], rfl, by omega, by omega⟩
-    · subst e4; exact ⟨by omega, e3, rfl, rfl, fun _ => ⟨e1, e2⟩⟩
+  cases hc : checkLength len r with
+  | mk res0 r0 =>
+    rw [hc] at h
+    cases res0 with
+    | error e => simp at h
+    | ok u =>
+      obtain ⟨rfl, h0, _⟩ := checkLength_ok hc
+      simp only at h
+      rcases readFull_ok h with ⟨hz, e1, e2⟩ | ⟨_, e1, e2, e3, e4⟩
+      · subst e1 e2; exact ⟨h0, by simp [hz], rfl, by omega, by omega⟩
+      · subst e4; exact ⟨h0, e3, rfl, rfl, fun _ => ⟨e1, e2⟩⟩
+
+/-- `ReadBytes` never panics any more: a negative or excessive length is an error -/
+theorem readBytes_plain (len : Int) (r : Reader) : PlainRes (readBytes len r).1 := by
+  unfold readBytes
+  cases hc : checkLength len r with
+  | mk res0 r0 =>
+    cases res0 with
+    | error e => rw [(checkLength_err hc).2.1]; simp
+    | ok u =>
+      simp only
+      cases h : readFull len.toNat r0 with
+      | mk res r' =>
+        cases res with
+        | error e => rw [(readFull_err h).1]; simp
+        | ok v => simp
 
 /-! ### relation to the primitives as found (defect D8) -/
 
@@ -398,14 +426,21 @@ theorem bReadU_asFound_short {n : Nat} {r : Reader} (h : ShortAt r n) :
 
 theorem readSlice8_asFound_agree {len : Nat} {r : Reader} (hn : 0 < len) (h : ¬ ShortAt r len) (old : Bytes) :
     AsFound.readSlice8 len r = readSlice8 old (len : Int) r := by
-  unfold AsFound.readSlice8 AsFound.readBuf readSlice8 readFull ShortAt Reader.remaining at *
-  have hn0 : ¬ len = 0 := by omega
   have hi : ¬ ((len : Int) ≤ 0) := by omega
-  by_cases hp : r.pos ≥ r.data.size
-  · simp [hp, hn0, hi]
-  · have hfull : len ≤ r.data.size - r.pos := by omega
+  unfold readSlice8
+  rw [if_neg hi]
+  unfold ShortAt at h
+  by_cases hp : r.remaining = 0
+  · rw [checkLength_of_gt (by omega)]
+    unfold Reader.remaining at hp
+    have hp' : r.pos ≥ r.data.size := by omega
+    simp [AsFound.readSlice8, AsFound.readBuf, hp']
+  · rw [checkLength_of_le (by omega) (by simp; omega)]
+    unfold Reader.remaining at hp h
+    have hp' : ¬ r.pos ≥ r.data.size := by omega
+    have hn0 : ¬ len = 0 := by omega
     have hlen : (takeFrom r.data r.pos len).length = len := by rw [takeFrom_length]; omega
-    simp [hp, hn0, hi, hlen, zeros]
+    simp [AsFound.readSlice8, AsFound.readBuf, readFull, hp', hn0, hlen, zeros]
 
 /-- the as-found string tail agrees with the repaired one when `l` bytes remain -/
 theorem readStringTail_asFound_agree {l : Nat} {r : Reader} (h : r.pos + l ≤ r.data.size) :
